@@ -682,6 +682,19 @@ where
                     inner,
                 ))
             },
+            // The alternation is preceded by a termination; disallow sub-globs that are rooted by
+            // a branch token rather than a leaf token.
+            //
+            // For example, `{</foo:1,>,bar}`.
+            Only((inner, None)) | StartEnd((inner, None), _)
+                if left.is_none() && inner.has_root().is_maybe_true() =>
+            {
+                Err(CorrelatedError::new(
+                    RuleErrorKind::RootedSubGlob,
+                    left,
+                    inner,
+                ))
+            },
             _ => Ok(()),
         }
     }
@@ -717,6 +730,19 @@ where
             Only((inner, Some(Wildcard(Tree { has_root: true }))))
             | StartEnd((inner, Some(Wildcard(Tree { has_root: true }))), _)
                 if left.is_none() && lower.is_unbounded() =>
+            {
+                Err(CorrelatedError::new(
+                    RuleErrorKind::RootedSubGlob,
+                    left,
+                    inner,
+                ))
+            },
+            // The repetition is preceded by a termination; disallow sub-globs with a zero lower
+            // bound that are rooted by a branch token rather than a leaf token.
+            //
+            // For example, `<</foo:1>:0,1>`.
+            Only((inner, None)) | StartEnd((inner, None), _)
+                if left.is_none() && lower.is_unbounded() && inner.has_root().is_maybe_true() =>
             {
                 Err(CorrelatedError::new(
                     RuleErrorKind::RootedSubGlob,
